@@ -120,6 +120,27 @@ def _nonresumable():
     return ["wrap", "finalize", {"final_plan": SEQ(M("null", None, "final-cleanup"))}, body]
 
 
+def _nonresumable_rejected_checkpoint():
+    """A checkpoint between create and save is rejected (IllegalMessageSequence) and the plan swallows that: the
+    section stays non-resumable (round-3 seed of C10)."""
+    body = SEQ(
+        M("open_run"),
+        M("checkpoint"),
+        point(("d1",), "m1", 0.5),
+        M("clear_checkpoint"),
+        M("create", None, name="secondary"),
+        M("read", "d1"),
+        ["try", M("checkpoint"), [["IllegalMessageSequence", "swallow", None]], None],
+        M("save"),
+        M("set", "m1", 2.0, group="z"),
+        M("wait", None, group="z"),
+        M("null", None, "unsafe-after-rejected-checkpoint"),
+        M("sleep", None, 0.1),
+        M("close_run"),
+    )
+    return ["wrap", "finalize", {"final_plan": SEQ(M("null", None, "final-cleanup"))}, body]
+
+
 def _nonresumable_toggles():
     body = SEQ(
         M("open_run"),
@@ -260,6 +281,8 @@ CORPUS = {
     "try_finally": (_try_finally(), DEV_SYNC, 0),
     "nonresumable": (_nonresumable(), DEV_N, 0),
     "nonresumable_toggles": (_nonresumable_toggles(), DEV_N, 0),
+    # tier 2 = only swept by the checks that name it (C10)
+    "nonresumable_rejected_checkpoint": (_nonresumable_rejected_checkpoint(), DEV_N, 2),
     "nonrewindable_region": (_nonrewindable_region(), DEV_A, 0),
     "engine_closes": (_engine_closes(), DEV_A, 0),
     "monitor": (_monitor_plan(), DEV_SYNC, 0),
@@ -284,7 +307,7 @@ def base_case(name):
 
 
 def corpus_names(tier):
-    return [n for n, (_, _, t) in CORPUS.items() if t == 0 or tier == "thorough"]
+    return [n for n, (_, _, t) in CORPUS.items() if t == 0 or (t == 1 and tier == "thorough")]
 
 
 _HANDLES = {}
